@@ -40,3 +40,60 @@ theorem recoverStack_no_handler (sem : Sem τ ρ ε σ) (e : ε) (p : P τ ρ ε
   simp [recoverStack, h]
 
 end PrologVerif.Promise
+
+namespace PrologVerif.Promise
+variable {τ ρ ε σ : Type}
+
+/-- every frame of `above` has no recovery function or declines the error; the state after all the
+    (declining) recovery functions have run -/
+def declineAll (sem : Sem τ ρ ε σ) (e : ε) : List (P τ ρ ε) → M σ → Option (M σ)
+  | [], m => some m
+  | p :: rest, m =>
+    match p.recover with
+    | none => declineAll sem e rest m
+    | some r =>
+      match sem.evalRecover r e m with
+      | (some _, _) => none
+      | (none, m') => declineAll sem e rest m'
+
+theorem recoverStack_append (sem : Sem τ ρ ε σ) (e : ε) :
+    ∀ (above rest : List (P τ ρ ε)) (m m1 : M σ), declineAll sem e above m = some m1 →
+      recoverStack sem e (above ++ rest) m = recoverStack sem e rest m1
+  | [], rest, m, m1, h => by simp [declineAll] at h; subst h; rfl
+  | p :: above, rest, m, m1, h => by
+    simp only [declineAll] at h
+    simp only [List.cons_append, recoverStack]
+    split at h
+    · rename_i hr; simp only [hr]; exact recoverStack_append sem e above rest m m1 h
+    · rename_i r hr
+      simp only [hr]
+      split at h
+      · simp at h
+      · rename_i m' he
+        simp only [he]
+        exact recoverStack_append sem e above rest m' m1 h
+
+/-- thunks and recovery functions never push the poll counter beyond `c` once it is within `c`
+    (true of the pure instance, which does not touch it, and of nested trampolines, which stop
+    polling at `c`) -/
+structure IterBounded (sem : Sem τ ρ ε σ) (c : Nat) : Prop where
+  thunk : ∀ n t m q m', sem.evalThunk n t m = some (q, m') → m.iter ≤ c → m'.iter ≤ c
+  recover : ∀ r e m q m', sem.evalRecover r e m = (q, m') → m.iter ≤ c → m'.iter ≤ c
+
+theorem recoverStack_iter (sem : Sem τ ρ ε σ) (c : Nat) (hb : IterBounded sem c) (e : ε) :
+    ∀ (stack : List (P τ ρ ε)) (m : M σ) (r : Option (List (P τ ρ ε))) (m' : M σ),
+      recoverStack sem e stack m = (r, m') → m.iter ≤ c → m'.iter ≤ c
+  | [], m, r, m', h, hm => by simp [recoverStack] at h; rw [← h.2]; exact hm
+  | p :: rest, m, r, m', h, hm => by
+    simp only [recoverStack] at h
+    split at h
+    · exact recoverStack_iter sem c hb e rest m r m' h hm
+    · rename_i rr _
+      split at h
+      · rename_i q m2 he
+        simp only [Prod.mk.injEq] at h
+        rw [← h.2]; exact hb.recover rr e m (some q) m2 he hm
+      · rename_i m2 he
+        exact recoverStack_iter sem c hb e rest m2 r m' h (hb.recover rr e m none m2 he hm)
+
+end PrologVerif.Promise
